@@ -253,6 +253,11 @@ def make_ops(ctx, kinds, ts_g, d, flavor, fresh_values=None):
                 if not c:
                     return {}
                 m = c[0]
+                if m + '0' in l1 or m + '1' in l1:
+                    # the daughters' keys are taken (the mother's key was
+                    # re-created after an earlier division): not a
+                    # well-formed division, nothing issued
+                    return {}
                 CTX['has_proc'].discard(m)
                 CTX['has_proc'].update({m + '0', m + '1'})
                 if label == 'divide':
